@@ -8,6 +8,7 @@
 //!   * the implementation's verdict in the encoding of `Proto.run_case`
 //!       Ok [0, #in, #out, kernel fee, kernel feature, stored 0/1] | Err [1, class, log changed] | Panic [2]
 //!   * the failures of the property oracle, which looks only at the implementation's outputs.
+use ed25519_dalek::{Keypair as DalekKeypair, PublicKey as DalekPublicKey, SecretKey as DalekSecretKey, Signature as DalekSignature, Signer, Verifier};
 use serde_json::{json, Value};
 use std::convert::TryFrom;
 use uuid::Uuid;
@@ -15,14 +16,17 @@ use vharness::core::core::{
 	FeeFields, Input, KernelFeatures, Output, OutputFeatures, Transaction, Weighting,
 };
 use vharness::core::libtx::{build, proof::ProofBuilder, tx_fee};
+use vharness::core::core::hash::Hashed;
 use vharness::core::ser as gser;
 use vharness::keychain::{
 	BlindSum, BlindingFactor, ExtKeychain, Identifier, Keychain, SwitchCommitmentType,
 };
 use vharness::libwallet::api_impl::{foreign, owner};
 use vharness::libwallet::slate_versions::v4::{
-	CommitsV4, KernelFeaturesArgsV4, OutputFeaturesV4, ParticipantDataV4, SlateStateV4, SlateV4,
+	CommitsV4, KernelFeaturesArgsV4, OutputFeaturesV4, ParticipantDataV4, PaymentInfoV4, SlateStateV4,
+	SlateV4,
 };
+use vharness::libwallet::{address, PaymentProof, SlatepackAddress};
 use vharness::libwallet::{
 	Context, Error, InitTxArgs, IssueInvoiceTxArgs, OutputData, OutputStatus, Slate, SlateState,
 	TxLogEntryType, WalletBackend,
@@ -105,7 +109,51 @@ enum Mut {
 	ComsAddChange(bool),
 	ComsAddSenderInput,
 	ComsUnsorted,
+	// payment-proof field of the reply (C11)
+	PPStrip,
+	PPNoSig,
+	PPResign(bool),            // signed by another wallet's address key; true: its address put in as well
+	PPOver(i64, bool, bool),   // right key, over amount+d / another excess / another sender address
+	PPSaddr,
+	PPRaddr,
+	PPAdd,
 }
+
+/// alterations of an exported payment proof (C11)
+#[derive(Clone, Debug, PartialEq)]
+enum PMut {
+	None,
+	Amount(i64),
+	Excess,
+	Raddr,
+	Saddr,
+	Rsig,
+	Ssig,
+	SwapSigs,
+	SwapAddrs,
+}
+impl PMut {
+	fn name(&self) -> String {
+		format!("{:?}", self)
+	}
+	fn to_coq(&self) -> String {
+		match self {
+			PMut::None => "PNone".into(),
+			PMut::Amount(d) => if *d < 0 { format!("(PAmount ({})%Z)", d) } else { format!("(PAmount {}%Z)", d) },
+			PMut::Excess => "PExcess".into(),
+			PMut::Raddr => format!("(PRaddr {}%Z)", ADDR_R2),
+			PMut::Saddr => format!("(PSaddr {}%Z)", ADDR_R2),
+			PMut::Rsig => format!("(PRsig {}%Z)", ADDR_R2),
+			PMut::Ssig => format!("(PSsig {}%Z)", ADDR_R2),
+			PMut::SwapSigs => "PSwapSigs".into(),
+			PMut::SwapAddrs => "PSwapAddrs".into(),
+		}
+	}
+}
+/// abstract address keys (Proto.c_addr_sk parent 0): wallet A account a -> a, R -> 10, R2 -> 20
+const ADDR_BASE: i64 = 5_000_000_007;
+const ADDR_R: i64 = ADDR_BASE + 10_000;
+const ADDR_R2: i64 = ADDR_BASE + 20_000;
 
 #[derive(Clone, Debug)]
 struct Script {
@@ -124,6 +172,7 @@ struct Script {
 	forge: ForgeKind,
 	muts: Vec<Mut>,
 	end_cancel: bool, // if nothing was accepted: cancel at the end (else finalize the unmutated reply)
+	pp: u8,           // payment proof: 0 none, 1 requested for the counterparty's address, 2 for a third party's
 }
 
 fn state_name(s: u8) -> &'static str {
@@ -171,6 +220,13 @@ impl Mut {
 			Mut::ComsAddChange(b) => json!(["ComsAddChange", b]),
 			Mut::ComsAddSenderInput => json!(["ComsAddSenderInput"]),
 			Mut::ComsUnsorted => json!(["ComsUnsorted"]),
+			Mut::PPStrip => json!(["PPStrip"]),
+			Mut::PPNoSig => json!(["PPNoSig"]),
+			Mut::PPResign(b) => json!(["PPResign", b]),
+			Mut::PPOver(d, e, x) => json!(["PPOver", d, e, x]),
+			Mut::PPSaddr => json!(["PPSaddr"]),
+			Mut::PPRaddr => json!(["PPRaddr"]),
+			Mut::PPAdd => json!(["PPAdd"]),
 		}
 	}
 	fn from_json(v: &Value) -> Mut {
@@ -222,6 +278,13 @@ impl Mut {
 			"ComsAddChange" => Mut::ComsAddChange(b(1)),
 			"ComsAddSenderInput" => Mut::ComsAddSenderInput,
 			"ComsUnsorted" => Mut::ComsUnsorted,
+			"PPStrip" => Mut::PPStrip,
+			"PPNoSig" => Mut::PPNoSig,
+			"PPResign" => Mut::PPResign(b(1)),
+			"PPOver" => Mut::PPOver(i(1), b(2), b(3)),
+			"PPSaddr" => Mut::PPSaddr,
+			"PPRaddr" => Mut::PPRaddr,
+			"PPAdd" => Mut::PPAdd,
 			x => panic!("unknown mutation {}", x),
 		}
 	}
@@ -274,6 +337,13 @@ impl Mut {
 			Mut::ComsAddChange(b) => format!("(MComsAddChange {})", b),
 			Mut::ComsAddSenderInput => "MComsAddSenderInput".into(),
 			Mut::ComsUnsorted => "MComsUnsorted".into(),
+			Mut::PPStrip => "MPPStrip".into(),
+			Mut::PPNoSig => "MPPNoSig".into(),
+			Mut::PPResign(b) => format!("(MPPResign {}%Z {})", ADDR_R2, b),
+			Mut::PPOver(d, e, x) => format!("(MPPOver {} {} {})", z(*d), e, x),
+			Mut::PPSaddr => format!("(MPPSaddr {}%Z)", ADDR_R2),
+			Mut::PPRaddr => format!("(MPPRaddr {}%Z)", ADDR_R2),
+			Mut::PPAdd => format!("(MPPAdd {}%Z)", ADDR_R),
 		}
 	}
 }
@@ -321,7 +391,7 @@ impl Script {
 			"n_change": self.n_change, "minconf": self.minconf, "use_all": self.use_all,
 			"ttl_blocks": self.ttl_blocks, "with_b": self.with_b, "forge": self.forge.to_json(),
 			"muts": self.muts.iter().map(|m| m.to_json()).collect::<Vec<_>>(),
-			"end_cancel": self.end_cancel,
+			"end_cancel": self.end_cancel, "pp": self.pp,
 		})
 	}
 	fn from_json(v: &Value) -> Script {
@@ -346,6 +416,7 @@ impl Script {
 			forge: ForgeKind::from_json(&v["forge"]),
 			muts: v["muts"].as_array().unwrap().iter().map(Mut::from_json).collect(),
 			end_cancel: v["end_cancel"].as_bool().unwrap(),
+			pp: v["pp"].as_u64().unwrap_or(0) as u8,
 		}
 	}
 }
@@ -430,6 +501,70 @@ fn accepted_catalogue() -> Vec<Mut> {
 		Mut::SigsAddSender(false),
 		Mut::ComsAddChange(true),
 	]
+}
+
+fn pp_catalogue() -> Vec<Mut> {
+	vec![
+		Mut::PPStrip,
+		Mut::PPNoSig,
+		Mut::PPResign(false),
+		Mut::PPResign(true),
+		Mut::PPOver(1, false, false),
+		Mut::PPOver(-1, false, false),
+		Mut::PPOver(0, true, false),
+		Mut::PPOver(0, false, true),
+		Mut::PPSaddr,
+		Mut::PPRaddr,
+	]
+}
+
+/// C11: proof-carrying sends over amounts / accounts / change shapes, mutations of the proof
+/// fields of the reply (plus a few others), then the exported proof
+fn gen_script_c11(p: &mut Prng, k: u64, thorough: bool) -> Script {
+	let mut sc = gen_script(p, k, thorough);
+	sc.flow = match k % 4 {
+		0 | 1 => Flow::Send,
+		2 => Flow::Sync,
+		_ => Flow::Late,
+	};
+	sc.self_send = false;
+	sc.with_b = false;
+	if sc.flow == Flow::Late {
+		sc.exact_slack = None;
+		if sc.n_change == 0 {
+			sc.n_change = 1;
+		}
+	}
+	sc.pp = match p.below(10) {
+		0 => 0,
+		1 => 2,
+		_ => 1,
+	};
+	sc.forge = match p.below(8) {
+		0 => ForgeKind::Redo,
+		1 => ForgeKind::AmountPlus(1),
+		_ => ForgeKind::Honest,
+	};
+	let single = sc.flow != Flow::Send;
+	let ppc = pp_catalogue();
+	let mut muts = vec![];
+	if sc.pp == 0 {
+		muts.push(if p.coin() { Mut::PPAdd } else { Mut::None });
+	} else if single {
+		muts.push(if p.chance(3, 5) { p.pick(&ppc).clone() } else { Mut::None });
+	} else {
+		for _ in 0..p.range(2, 6) {
+			muts.push(p.pick(&ppc).clone());
+		}
+		if p.chance(1, 4) {
+			muts.push(p.pick(&rejected_catalogue(&sc.flow)).clone());
+		}
+		if p.chance(4, 5) {
+			muts.push(Mut::None);
+		}
+	}
+	sc.muts = muts;
+	sc
 }
 
 fn gen_script(p: &mut Prng, k: u64, thorough: bool) -> Script {
@@ -525,6 +660,7 @@ fn gen_script(p: &mut Prng, k: u64, thorough: bool) -> Script {
 		forge,
 		muts,
 		end_cancel: p.coin(),
+		pp: 0,
 	}
 }
 
@@ -547,6 +683,26 @@ fn classify(e: &Error) -> u64 {
 		Error::NotEnoughFunds { .. } => 1,
 		_ => 21,
 	}
+}
+
+fn addr_keys(kc: &ExtKeychain, parent: &Identifier) -> DalekKeypair {
+	let sk = address::address_from_derivation_path(kc, parent, 0).unwrap();
+	let secret = DalekSecretKey::from_bytes(&sk.0).unwrap();
+	let public: DalekPublicKey = (&secret).into();
+	DalekKeypair { secret, public }
+}
+
+/// amount (8 bytes BE) ‖ excess (33 bytes) ‖ sender address (32 bytes) — written here from the
+/// specification, not taken from the wallet
+fn pp_msg(amount: u64, excess: &Commitment, saddr: &DalekPublicKey) -> Vec<u8> {
+	let mut m = amount.to_be_bytes().to_vec();
+	m.extend_from_slice(&excess.0);
+	m.extend_from_slice(saddr.as_bytes());
+	m
+}
+
+fn acct_id(a: u32) -> Identifier {
+	ExtKeychain::derive_key_id(2, a, 0, 0, 0)
 }
 
 fn acct_name(a: u32) -> &'static str {
@@ -760,6 +916,8 @@ fn forge(
 		sl.num_participants = keep_n;
 	}
 	sl.offset = kc.blind_sum(&sum).unwrap();
+	// the kernel excess as the finalizing wallet will compute it (all entries present here)
+	let excess = sl.calc_excess(secp).ok();
 	// keep only my entries
 	let mine: Vec<(PublicKey, PublicKey)> = ctxs
 		.iter()
@@ -776,8 +934,13 @@ fn forge(
 		.filter(|p| mine.iter().any(|(k, n)| *k == p.public_blind_excess && *n == p.public_nonce))
 		.cloned()
 		.collect();
+	// payment proof requested: sign (amount on the slate, excess, sender address) with my address key
 	sl.amount = 0;
 	let mut v = to_v4(&sl);
+	if let (Some(pr), Some(ex)) = (v.proof.as_mut(), excess) {
+		let kp = addr_keys(kc, &acct_id(0));
+		pr.rsig = Some(kp.sign(&pp_msg(s1.amount, &ex, &pr.saddr)));
+	}
 	v.sta = match state {
 		5 => SlateStateV4::Invoice2,
 		_ => SlateStateV4::Standard2,
@@ -833,12 +996,13 @@ struct ExchInfo {
 	late: Option<(u64, u64, u64, bool)>,
 	ttl: u64,
 	invoice: bool,
+	pp: Option<i64>, // requested recipient address (abstract)
 }
 impl ExchInfo {
 	fn to_coq(&self) -> String {
 		let pl = |v: &Vec<(u64, u64)>| v.iter().map(|(a, b)| format!("({}%N, {}%N)", a, b)).collect::<Vec<_>>().join("; ");
 		format!(
-			"(mkExch {}%N {}%Z {}%N [{}] [{}] {}%N {} None {} {}%N {})",
+			"(mkExch {}%N {}%Z {}%N [{}] [{}] {}%N {} {} {} {}%N {})",
 			self.id,
 			self.sender,
 			self.parent,
@@ -847,6 +1011,10 @@ impl ExchInfo {
 			self.amount,
 			match self.fee {
 				Some(f) => format!("(Some {}%N)", f),
+				None => "None".into(),
+			},
+			match self.pp {
+				Some(a) => format!("(Some (0%N, {}%Z))", a),
 				None => "None".into(),
 			},
 			match self.late {
@@ -956,6 +1124,7 @@ fn apply_mut(
 	kc_a: &ExtKeychain,
 	conf_h: u64,
 	id_other: Uuid,
+	pp: &PpEnv,
 ) -> Option<(SlateV4, Vec<KnownOut>)> {
 	let mut v = r.slate.clone();
 	let mut known = r.outs.clone();
@@ -1185,6 +1354,38 @@ fn apply_mut(
 			c.push(CommitsV4 { f: OutputFeaturesV4(0), c: commit, p: Some(proof) });
 			sort_coms(c);
 		}
+		Mut::PPStrip => {
+			v.proof.as_ref()?;
+			v.proof = None;
+		}
+		Mut::PPNoSig => v.proof.as_mut()?.rsig = None,
+		Mut::PPResign(newaddr) => {
+			let ex = pp.excess_for(&v)?;
+			let pr = v.proof.as_mut()?;
+			pr.rsig = Some(pp.other.sign(&pp_msg(pp.amount, &ex, &pr.saddr)));
+			if *newaddr {
+				pr.raddr = pp.other.public;
+			}
+		}
+		Mut::PPOver(d, oe, os) => {
+			let ex = if *oe { pp.other_excess } else { pp.excess_for(&v)? };
+			let pr = v.proof.as_mut()?;
+			let sa = if *os { pp.other.public } else { pr.saddr };
+			pr.rsig = Some(pp.counter.sign(&pp_msg((pp.amount as i64 + d) as u64, &ex, &sa)));
+		}
+		Mut::PPSaddr => v.proof.as_mut()?.saddr = pp.other.public,
+		Mut::PPRaddr => v.proof.as_mut()?.raddr = pp.other.public,
+		Mut::PPAdd => {
+			if v.proof.is_some() {
+				return None;
+			}
+			let ex = pp.excess_for(&v)?;
+			v.proof = Some(PaymentInfoV4 {
+				saddr: pp.sender_addr,
+				raddr: pp.counter.public,
+				rsig: Some(pp.counter.sign(&pp_msg(pp.amount, &ex, &pp.sender_addr))),
+			});
+		}
 		Mut::ComsUnsorted => {
 			let c = v.coms.as_mut()?;
 			let outs: Vec<usize> = c.iter().enumerate().filter(|(_, x)| x.p.is_some()).map(|(i, _)| i).collect();
@@ -1195,6 +1396,28 @@ fn apply_mut(
 		}
 	}
 	Some((v, known))
+}
+
+/// what the payment-proof mutations and oracles need
+struct PpEnv {
+	amount: u64,
+	sender_pub: PublicKey,          // the finalizing wallet's public excess for this slate
+	sender_addr: DalekPublicKey,    // its payment-proof address (account of the context, index 0)
+	counter: DalekKeypair,          // the counterparty's address key
+	other: DalekKeypair,            // a third wallet's address key
+	other_excess: Commitment,       // some other kernel excess that is on chain
+	requested: Option<DalekPublicKey>,
+}
+impl PpEnv {
+	/// the excess the finalizing wallet will compute: its own key plus the keys on the reply
+	fn excess_for(&self, v: &SlateV4) -> Option<Commitment> {
+		let secp = vharness::util::static_secp_instance();
+		let secp = secp.lock();
+		let mut keys: Vec<&PublicKey> = v.sigs.iter().map(|p| &p.xs).collect();
+		keys.push(&self.sender_pub);
+		let sum = PublicKey::from_combination(&secp, keys).ok()?;
+		Commitment::from_pubkey(&secp, &sum).ok()
+	}
 }
 
 struct Oracle {
@@ -1219,14 +1442,33 @@ fn oracle_accepted(
 	reply: &Reply,
 	ttl_expired: bool,
 	counter_wallet: usize,
-) -> (Vec<String>, Value) {
+	pp: Option<(&PpEnv, &SlateV4, &str, u32)>, // env, the accepted wire record, the case term, active account
+) -> (Vec<String>, Value, Vec<Value>) {
 	let s = &w.s;
 	let mut o = Oracle { fails: vec![] };
+	let mut vrows: Vec<Value> = vec![];
 	let kc_a = keychain_of(s, A);
 	let tx = match fin.tx.as_ref() {
 		Some(t) => t.clone(),
-		None => return (vec!["accepted without a transaction".into()], json!({})),
+		None => return (vec!["accepted without a transaction".into()], json!({}), vec![]),
 	};
+	// ---- C11: accepted only if the reply carried the requested recipient's genuine signature
+	if let Some((env, wire, _, _)) = pp {
+		if sc.pp > 0 {
+			let excess = tx.kernels()[0].excess;
+			match (&wire.proof, &env.requested) {
+				(Some(pr), Some(req)) => {
+					o.check(pr.raddr == *req, "accepted a proof naming another recipient than the one requested");
+					o.check(pr.saddr == env.sender_addr, "accepted a proof naming another sender address");
+					let msg = pp_msg(env.amount, &excess, &env.sender_addr);
+					let good = pr.rsig.as_ref().map(|sg| req.verify(&msg, sg).is_ok()).unwrap_or(false);
+					o.check(good, "accepted a reply without the requested recipient's signature over (amount, excess, sender)");
+				}
+				(None, _) => o.check(false, "a payment proof was requested but a reply without proof was accepted"),
+				_ => {}
+			}
+		}
+	}
 	o.check(!ttl_expired, "a reply whose ttl had passed was accepted");
 	// valid under consensus rules
 	let val = guarded(|| tx.validate(Weighting::AsTransaction));
@@ -1376,6 +1618,12 @@ fn oracle_accepted(
 	};
 	let inputs_on_chain = in_commits.iter().all(|c| matches!(s.node.chain.get_unspent(*c), Ok(Some(_))));
 	info["inputs_on_chain"] = json!(inputs_on_chain);
+	// ---- C11: the kernel is not on chain yet: the exported proof must not verify
+	if let Some((env, _, coq, active)) = pp {
+		if sc.pp > 0 && o.fails.is_empty() {
+			vrows.extend(verify_rows(w, env, id, coq, active, false, &[PMut::None], &tx, &mut o));
+		}
+	}
 	if feat_ok && inputs_on_chain && o.fails.is_empty() {
 		let client = s.node.client();
 		let _ = owner::post_tx(&client, &tx, false);
@@ -1388,8 +1636,133 @@ fn oracle_accepted(
 			o.check(matches!(k, Ok(Some(_))), "kernel not found on chain after mining");
 		}
 		info["mined"] = json!(ok);
+		if let Some((env, _, coq, active)) = pp {
+			if sc.pp > 0 && ok {
+				let all = [
+					PMut::None, PMut::Amount(1), PMut::Amount(-1), PMut::Excess, PMut::Raddr, PMut::Saddr,
+					PMut::Rsig, PMut::Ssig, PMut::SwapSigs, PMut::SwapAddrs,
+				];
+				vrows.extend(verify_rows(w, env, id, coq, active, true, &all, &tx, &mut o));
+			}
+		}
 	}
-	(o.fails, info)
+	(o.fails, info, vrows)
+}
+
+fn apply_pmut(m: &PMut, p: &PaymentProof, env: &PpEnv) -> PaymentProof {
+	let mut q = p.clone();
+	let msg = |q: &PaymentProof| pp_msg(q.amount, &q.excess, &q.sender_address.pub_key);
+	match m {
+		PMut::None => {}
+		PMut::Amount(d) => q.amount = (q.amount as i64 + d) as u64,
+		PMut::Excess => q.excess = env.other_excess,
+		PMut::Raddr => q.recipient_address = SlatepackAddress::new(&env.other.public),
+		PMut::Saddr => q.sender_address = SlatepackAddress::new(&env.other.public),
+		PMut::Rsig => q.recipient_sig = env.other.sign(&msg(&q)),
+		PMut::Ssig => q.sender_sig = env.other.sign(&msg(&q)),
+		PMut::SwapSigs => {
+			let t = q.recipient_sig;
+			q.recipient_sig = q.sender_sig;
+			q.sender_sig = t;
+		}
+		PMut::SwapAddrs => {
+			let t = q.recipient_address.clone();
+			q.recipient_address = q.sender_address.clone();
+			q.sender_address = t;
+		}
+	}
+	q
+}
+
+/// export the proof from the sender's wallet, alter it, verify it in the three wallets; the
+/// oracle decides validity with ed25519-dalek and the chain, independently of the wallet
+fn verify_rows(
+	w: &World,
+	env: &PpEnv,
+	id: &Uuid,
+	coq: &str,
+	active: u32,
+	mined: bool,
+	pmuts: &[PMut],
+	tx: &Transaction,
+	o: &mut Oracle,
+) -> Vec<Value> {
+	let s = &w.s;
+	let mut rows = vec![];
+	// the sender looks the transaction up in the account it was sent from
+	let src = s.with(A, |b, _| {
+		b.tx_log_iter()
+			.find(|t| t.tx_slate_id == Some(*id) && t.tx_type == TxLogEntryType::TxSent)
+			.map(|t| key_pair(&t.parent_key_id).0 as u32)
+	});
+	if let Some(a) = src {
+		set_active(s, A, a);
+	}
+	let exported = guarded(|| {
+		owner::retrieve_payment_proof(s.wallets[A].inst.clone(), s.wallets[A].mask.as_ref(), &None, true, None, Some(*id))
+	});
+	set_active(s, A, active);
+	let proof = match exported {
+		Ok(Ok(p)) => p,
+		other => {
+			o.check(false, &format!("retrieve_payment_proof failed after an accepted finalize: {:?}", other.map(|r| r.map(|_| ()).map_err(|e| format!("{:?}", e)))));
+			return rows;
+		}
+	};
+	if mined {
+		// the exported proof states exactly what was agreed
+		o.check(proof.amount == env.amount, &format!("exported amount {} != agreed amount {}", proof.amount, env.amount));
+		o.check(proof.excess == tx.kernels()[0].excess, "exported excess is not the excess of the finalized kernel");
+		if let Some(req) = &env.requested {
+			o.check(proof.recipient_address.pub_key == *req, "exported recipient address is not the requested one");
+		}
+		o.check(proof.sender_address.pub_key == env.sender_addr, "exported sender address is not the sender's address");
+	}
+	for pm in pmuts {
+		let q = apply_pmut(pm, &proof, env);
+		let msg = pp_msg(q.amount, &q.excess, &q.sender_address.pub_key);
+		let on_chain = matches!(s.node.chain.get_kernel_height(&q.excess, None, None), Ok(Some(_)));
+		let genuine = on_chain
+			&& q.recipient_address.pub_key.verify(&msg, &q.recipient_sig).is_ok()
+			&& q.sender_address.pub_key.verify(&msg, &q.sender_sig).is_ok();
+		let verifiers: Vec<(usize, i64)> = if *pm == PMut::None && mined {
+			vec![(A, active as i64), (R, 10), (R2, 20)]
+		} else {
+			vec![(A, active as i64)]
+		};
+		for (vw, vparent) in verifiers {
+			let r = guarded(|| owner::verify_payment_proof(s.wallets[vw].inst.clone(), s.wallets[vw].mask.as_ref(), &q));
+			let mut fails: Vec<String> = vec![];
+			let imp: Vec<i64> = match &r {
+				Err(_) => {
+					fails.push("verify_payment_proof panicked".into());
+					vec![2]
+				}
+				Ok(Err(e)) => {
+					if genuine {
+						fails.push(format!("a genuine payment proof was refused: {:?}", e));
+					}
+					vec![1, classify(e) as i64]
+				}
+				Ok(Ok((a, b))) => {
+					if !genuine {
+						fails.push(format!("a payment proof that is not genuine was accepted (alteration {})", pm.name()));
+					}
+					vec![0, *a as i64, *b as i64]
+				}
+			};
+			if *pm == PMut::None && mined && vw == A && imp[0] != 0 {
+				fails.push("the proof exported after an honest exchange does not verify".into());
+			}
+			rows.push(json!({
+				"verify": {"pm": pm.name(), "kernel_on_chain": on_chain, "verifier": vw, "genuine": genuine},
+				"coqv": format!("({}, {}, Some {}, {}%N)", coq, pm.to_coq(), on_chain, vparent),
+				"impl": imp.iter().map(|x| x.to_string()).collect::<Vec<_>>(),
+				"oracle": fails,
+			}));
+		}
+	}
+	rows
 }
 
 struct CaseOut {
@@ -1465,6 +1838,7 @@ fn run_exchange(w: &World, sc: &Script, k: u64, out: &mut Vec<Value>, shard: u64
 				late: None,
 				ttl: s1b.ttl_cutoff_height,
 				invoice: false,
+				pp: None,
 			};
 			let kc2 = keychain_of(s, R2);
 			other_reply = Some(Reply {
@@ -1511,6 +1885,11 @@ fn run_exchange(w: &World, sc: &Script, k: u64, out: &mut Vec<Value>, shard: u64
 			selection_strategy_is_use_all: sc.use_all,
 			ttl_blocks: sc.ttl_blocks,
 			late_lock: if late { Some(true) } else { None },
+			payment_proof_recipient_address: match sc.pp {
+				1 => Some(SlatepackAddress::new(&addr_keys(&keychain_of(s, R), &acct_id(0)).public)),
+				2 => Some(SlatepackAddress::new(&addr_keys(&keychain_of(s, R2), &acct_id(0)).public)),
+				_ => None,
+			},
 			..Default::default()
 		};
 		s1 = match s.with(A, |b, m| owner::init_send_tx(b, m, args, false)) {
@@ -1652,6 +2031,11 @@ fn run_exchange(w: &World, sc: &Script, k: u64, out: &mut Vec<Value>, shard: u64
 			late: if late { Some((sc.minconf, 500, n_change as u64, sc.use_all)) } else { None },
 			ttl: s1.ttl_cutoff_height,
 			invoice: sc.flow == Flow::Invoice,
+			pp: match sc.pp {
+				1 => Some(ADDR_R),
+				2 => Some(ADDR_R2),
+				_ => None,
+			},
 		}
 	};
 	if ctx0.is_none() {
@@ -1659,6 +2043,24 @@ fn run_exchange(w: &World, sc: &Script, k: u64, out: &mut Vec<Value>, shard: u64
 	}
 	let a_info = ctx_abs(&ctx0, &mut extra);
 	let kc_a = keychain_of(s, A);
+	let ppenv = {
+		let c = s.with(A, |b, mm| b.get_private_context(mm, id.as_bytes())).unwrap();
+		let head = s.node.chain.head_header().unwrap();
+		let blk = s.node.chain.get_block(&head.hash()).unwrap();
+		PpEnv {
+			amount: c.amount,
+			sender_pub: PublicKey::from_secret_key(kc_a.secp(), &c.sec_key).unwrap(),
+			sender_addr: addr_keys(&kc_a, &c.parent_key_id).public,
+			counter: addr_keys(&keychain_of(s, counter), &acct_id(0)),
+			other: addr_keys(&keychain_of(s, R2), &acct_id(0)),
+			other_excess: blk.kernels()[0].excess,
+			requested: match sc.pp {
+				1 => Some(addr_keys(&keychain_of(s, R), &acct_id(0)).public),
+				2 => Some(addr_keys(&keychain_of(s, R2), &acct_id(0)).public),
+				_ => None,
+			},
+		}
+	};
 	// active account at finalize time
 	let active = if sc.use_src_name && !sc.active_ok { 0 } else { sc.src_acct };
 	set_active(s, A, active);
@@ -1706,7 +2108,7 @@ fn run_exchange(w: &World, sc: &Script, k: u64, out: &mut Vec<Value>, shard: u64
 				});
 				Some(v)
 			}
-			_ => match apply_mut(m, &reply, &other, &cur_ctx, &kc_a, conf_h, id_other) {
+			_ => match apply_mut(m, &reply, &other, &cur_ctx, &kc_a, conf_h, id_other, &ppenv) {
 				Some((v, known)) => {
 					mreply.outs = known;
 					Some(v)
@@ -1754,6 +2156,30 @@ fn run_exchange(w: &World, sc: &Script, k: u64, out: &mut Vec<Value>, shard: u64
 		let ctx_exists = s.with(A, |b, mm| b.get_private_context(mm, wire.id.as_bytes())).is_ok();
 		let ttl_expired = wire.ttl_cutoff_height != 0 && conf_h >= wire.ttl_cutoff_height;
 		let tip = s.node.height();
+		// ---- the abstract case
+		let lock_mode = match sc.flow {
+			Flow::Send => 0,
+			Flow::Sync => 1,
+			_ => 2,
+		};
+		let coq = format!(
+			"(mkCase {}%N {}%N {}%N {}%N [{}] {} {} {}%N {} {} {} 10%N {})",
+			active,
+			conf_h,
+			tip,
+			vharness::core::global::max_tx_weight(),
+			os_coq.join("; "),
+			a_info.to_coq(),
+			match &b_info {
+				Some((b, _)) => format!("(Some {})", b.to_coq()),
+				None => "None".into(),
+			},
+			lock_mode,
+			sc.self_send,
+			reply.forge_coq(),
+			other_reply.forge_coq(),
+			m.to_coq(conf_h, id_other_abs)
+		);
 		let res = guarded(|| {
 			s.with(A, |b, mm| {
 				if sc.flow == Flow::Invoice {
@@ -1766,6 +2192,7 @@ fn run_exchange(w: &World, sc: &Script, k: u64, out: &mut Vec<Value>, shard: u64
 		let nlog_after = n_log(s, A);
 		let mut oracle: Vec<String> = vec![];
 		let mut info = json!({});
+		let mut vrows: Vec<Value> = vec![];
 		let imp: Vec<i128> = match &res {
 			Err(_) => {
 				oracle.push("finalize_tx panicked".into());
@@ -1795,9 +2222,10 @@ fn run_exchange(w: &World, sc: &Script, k: u64, out: &mut Vec<Value>, shard: u64
 					eprintln!("KERNEL {:?}", fin.tx.as_ref().unwrap().kernels()[0]);
 				}
 				consumed = true;
-				let (f, i) = oracle_accepted(w, sc, fin, &id, &ctx_before, &mreply, ttl_expired, counter);
+				let (f, i, vr) = oracle_accepted(w, sc, fin, &id, &ctx_before, &mreply, ttl_expired, counter, Some((&ppenv, &v, &coq, active)));
 				oracle = f;
 				info = i;
+				vrows = vr;
 				let tx = fin.tx.as_ref();
 				let feat = tx
 					.map(|t| match t.kernels()[0].features {
@@ -1817,36 +2245,20 @@ fn run_exchange(w: &World, sc: &Script, k: u64, out: &mut Vec<Value>, shard: u64
 				]
 			}
 		};
-		// ---- the abstract case
-		let lock_mode = match sc.flow {
-			Flow::Send => 0,
-			Flow::Sync => 1,
-			_ => 2,
-		};
-		let coq = format!(
-			"(mkCase {}%N {}%N {}%N {}%N [{}] {} {} {}%N {} {} {} 0%N {})",
-			active,
-			conf_h,
-			tip,
-			vharness::core::global::max_tx_weight(),
-			os_coq.join("; "),
-			a_info.to_coq(),
-			match &b_info {
-				Some((b, _)) => format!("(Some {})", b.to_coq()),
-				None => "None".into(),
-			},
-			lock_mode,
-			sc.self_send,
-			reply.forge_coq(),
-			other_reply.forge_coq(),
-			m.to_coq(conf_h, id_other_abs)
-		);
 		let _ = tip0;
 		out.push(json!({
 			"k": k, "j": j, "shard": shard, "script": sc.to_json(), "mut": m.to_json(),
 			"coq": coq, "impl": imp.iter().map(|x| x.to_string()).collect::<Vec<_>>(),
 			"oracle": oracle, "info": info,
 		}));
+		for mut vr in vrows {
+			vr["k"] = json!(k);
+			vr["j"] = json!(j);
+			vr["shard"] = json!(shard);
+			vr["script"] = sc.to_json();
+			vr["mut"] = m.to_json();
+			out.push(vr);
+		}
 		if late && !consumed {
 			break; // the context changed (inputs selected, maybe locked): one mutation per late-locked send
 		}
@@ -1888,14 +2300,14 @@ fn run_exchange(w: &World, sc: &Script, k: u64, out: &mut Vec<Value>, shard: u64
 			} else if !late {
 				// the unmutated reply is still good after all the refused ones
 				if let Ok(wire) = through_wire(&reply.slate) {
-					let acceptable = matches!(sc.forge, ForgeKind::Honest | ForgeKind::Redo);
+					let acceptable = matches!(sc.forge, ForgeKind::Honest | ForgeKind::Redo) && sc.pp != 2;
 					let r = guarded(|| s.with(A, |b, mm| owner::finalize_tx(b, mm, &wire)));
 					if acceptable && sc.active_ok && sc.flow != Flow::Sync {
 						match r {
 							Ok(Ok(fin)) => {
 								let cb = read_ctx(s, A, &id);
 								let _ = cb;
-								let (f, _) = oracle_accepted(w, sc, &fin, &id, &ctx0, &reply, false, counter);
+								let (f, _, _) = oracle_accepted(w, sc, &fin, &id, &ctx0, &reply, false, counter, None);
 								end_fail.extend(f);
 							}
 							other => end_fail.push(format!(
@@ -1917,13 +2329,19 @@ fn run_exchange(w: &World, sc: &Script, k: u64, out: &mut Vec<Value>, shard: u64
 	set_active(s, A, 0);
 }
 
+#[allow(dead_code)]
 fn main() {
+	run_main(false)
+}
+
+pub fn run_main(c11: bool) {
 	quiet_panics();
 	let out_path = arg("out").expect("--out");
 	let n = arg_u64("n", 20);
 	let shard = arg_u64("shard", 0);
 	let thorough = arg_u64("thorough", 0) == 1;
-	let dir = format!("/tmp/vh_c02_{}/s{}", std::process::id(), shard);
+	let tag = if c11 { "c11" } else { "c02" };
+	let dir = format!("/tmp/vh_{}_{}/s{}", tag, std::process::id(), shard);
 	let w = new_world(&dir);
 	let mut out = Out::create(&out_path);
 	let mut rows: Vec<Value> = vec![];
@@ -1941,7 +2359,7 @@ fn main() {
 		let seed = seed_from_env();
 		for k in 0..n {
 			let mut p = Prng::new(seed.wrapping_mul(1_000_003).wrapping_add(shard * 7919 + k));
-			let sc = gen_script(&mut p, k + shard, thorough);
+			let sc = if c11 { gen_script_c11(&mut p, k + shard, thorough) } else { gen_script(&mut p, k + shard, thorough) };
 			run_exchange(&w, &sc, k, &mut rows, shard);
 		}
 	}
@@ -1950,6 +2368,6 @@ fn main() {
 	}
 	out.finish();
 	drop(w.s);
-	let _ = std::fs::remove_dir_all(format!("/tmp/vh_c02_{}", std::process::id()));
+	let _ = std::fs::remove_dir_all(format!("/tmp/vh_{}_{}", tag, std::process::id()));
 	let _ = w.dir;
 }
